@@ -5,7 +5,8 @@ import ast
 
 from sa.core import Ob
 from sa.pm import AnalysisError, norm, body_nodes
-from sa import gi, df, ru
+from sa import gi, df, ru, sym
+from sa.pm import Undecided
 from sa.gi import IntSet, iv, GuardWalker, SymbolicAtomizer
 from sa.cfg import stmt_paths, struct_dominates
 
@@ -16,143 +17,88 @@ SP = "pycoin/coins/bitcoin/Spendable.py"
 U, E = IntSet.all(), IntSet.empty()
 
 
+_REF = None
+
+
+def _ref():
+    global _REF
+    if _REF is None:
+        import os
+        _REF = ast.parse(open(os.path.join(os.path.dirname(os.path.dirname(os.path.abspath(__file__))), "spec", "ref_value.py")).read())
+    return _REF
+
+
+INTS = lambda t: t in ("fee", "zero_count", "total_coin_value", "coins_allocated", "remaining_coins", "value_each", "extra_count", "total_amount", "split_count", "idx", "coin_value") or t.startswith(("len(", "sum(", "self.total_"))
+
+
+def _refcheck(ctx, rel, dotted, refname, key, ints=None):
+    fi = ctx.p.functions.get(ctx.p.module(rel).name + "." + dotted) or ctx.func(rel, dotted)
+    return sym.against_reference(ctx, fi, _ref(), refname, key, ints or INTS)
+
+
 # ------------------------------------------------------------------ C13.1
 def c13_1(ctx):
     f = ctx.func(TU, "distribute_from_split_pool")
-    const = ru.const_resolver(ctx, f, {"zero_count"})
-    w = GuardWalker(SymbolicAtomizer(ru.subject({"remaining_coins"}), const))
-    ex = w.run(f.node.body)
-    s, n = ru.guard_reject_set(f.node, w, ex, ru.is_raise, U, E)
-    want = iv(None, ("s", -1))
-    ctx.check(s == want, "insufficiency-set", ctx.where(f),
-              "distribute_from_split_pool raises for remaining amounts %s; it must raise exactly when remaining < number of unspecified outputs (every split output gets at least one satoshi), i.e. %s"
-              % (s.fmt("zero_count"), want.fmt("zero_count")), sample={"subject": "remaining_coins", "raises_for": s.fmt("zero_count")})
-    neg, n2 = ru.guard_reject_set(f.node, w, ex, lambda e: ru.is_raise(e) and "insufficient" in norm(e.value), U, E)
-    ctx.check(neg == iv(None, -1), "negative-remaining", ctx.where(f), "`insufficient inputs` is raised for %s, expected remaining < 0" % neg.fmt())
-    paths = stmt_paths(f.node)
-    writes = [st for st in body_nodes(f.node) if isinstance(st, ast.Assign) and isinstance(st.targets[0], ast.Attribute) and st.targets[0].attr == "coin_value"]
-    raises = [n_ for n_ in body_nodes(f.node) if isinstance(n_, ast.If) and any(isinstance(x, ast.Raise) for x in n_.body) and "remaining_coins" in norm(n_.test)]
-    ok = bool(writes) and len(raises) >= 1
-    for wr in writes:
-        lp = [n_ for n_ in body_nodes(f.node) if isinstance(n_, ast.For) and any(x is wr for x in ast.walk(n_))]
-        tgt = lp[0] if lp else wr
-        ok = ok and all(struct_dominates(paths, r, tgt) for r in raises)
-    ctx.check(ok, "guards-before-writes", ctx.where(f), "the insufficiency guards do not all precede the loop that writes the split amounts (a partially modified transaction could be left behind)")
-    # amounts only go to outputs that were zero
-    lp = [n_ for n_ in body_nodes(f.node) if isinstance(n_, ast.For) and any(x in writes for x in ast.walk(n_))]
-    ok = len(lp) == 1 and norm(lp[0].iter) == "zip(split_with_remainder(remaining_coins, zero_count), zero_txs_out)" and norm(lp[0].target) == "(value, tx_out)" and norm(writes[0]) == "tx_out.coin_value = value"
-    ctx.check(ok, "shares-to-zero-outputs", ctx.where(f), "the shares are not zipped with the zero-valued outputs in transaction order")
+    _refcheck(ctx, TU, "distribute_from_split_pool", "tu_distribute", "split-pool")
+    # the insufficiency guards come before any output is written: every write of a coin_value is reached only when no guard raised
+    w = sym.walk(ctx, f, int_names=INTS)
+    writes = [e for e in w.effects if e.kind == "setattr" and e.attr == "coin_value"]
+    raises = sym.exits_formula(w, ru.is_raise)
+    if not writes:
+        raise Undecided("distribute_from_split_pool writes no coin_value")
+    for e in writes:
+        ctx.check(e.loops != () and not any(x.kind == "raise" and x.node is not None and any(l.node is y for l in e.loops for y in [l.node] if any(z is x.node for z in ast.walk(y))) for x in w.exits), "guards-before-writes", ctx.where(f, e.node),
+                  "an insufficiency guard is evaluated inside the loop that writes the split amounts (a partially modified transaction could be left behind)")
 
 
 # ------------------------------------------------------------------ C13.2
 def c13_2(ctx):
-    f = ctx.func(TU, "distribute_from_split_pool")
-    d = df.single_defs(f.node)
-    want = {"zero_txs_out": "[tx_out for tx_out in tx.txs_out if tx_out.coin_value == 0]", "zero_count": "len(zero_txs_out)",
-            "total_coin_value": "sum((spendable.coin_value for spendable in tx.unspents))", "coins_allocated": "sum((tx_out.coin_value for tx_out in tx.txs_out)) + fee",
-            "remaining_coins": "total_coin_value - coins_allocated"}
-    for k, v in want.items():
-        ctx.check(k in d and norm(d[k]) == v, "definition:%s" % k, ctx.where(f), "%s is `%s`; conservation requires `%s`" % (k, norm(d[k]) if k in d else None, v), sample={"name": k, "definition": norm(d[k]) if k in d else None})
-    g = ctx.func(TU, "split_with_remainder")
-    body = [norm(s) for s in g.node.body if not (isinstance(s, ast.Expr) and isinstance(s.value, ast.Constant))]
-    tot, cnt = g.params()[:2]
-    want_b = ["value_each, extra_count = divmod(%s, %s)" % (tot, cnt), "for _ in range(extra_count):\n    yield (value_each + 1)", "for _ in range(%s - extra_count):\n    yield value_each" % cnt]
-    ctx.check(body == want_b, "split-shape", ctx.where(g),
-              "split_with_remainder is %s; with (q, r) = divmod(total, count) it must yield r shares of q+1 first and then count-r shares of q (r(q+1) + (count-r)q = q*count + r = total)" % body,
-              sample={"body": body, "identity": "r*(q+1) + (count-r)*q == q*count + r == total"})
-    t = ctx.func(TX, "Tx.fee")
-    ctx.check([norm(s) for s in t.node.body] == ["return self.total_in() - self.total_out()"], "fee-definition", ctx.where(t), "Tx.fee is not total_in() - total_out()")
-    ti = ctx.func(TX, "Tx.total_in")
-    tt = norm(ti.node)
-    ctx.check("self.check_unspents()" in tt and "return sum((tx_out.coin_value for tx_out in self.unspents))" in tt, "total-in", ctx.where(ti), "Tx.total_in is not the sum of the spent outputs' values (after checking they are all known)")
-    to = ctx.func(TX, "Tx.total_out")
-    ctx.check("return sum((tx_out.coin_value for tx_out in self.txs_out))" in norm(to.node), "total-out", ctx.where(to), "Tx.total_out is not the sum of the outputs' values")
+    _refcheck(ctx, TU, "split_with_remainder", "tu_split", "split-shape")
+    _refcheck(ctx, TX, "Tx.fee", "tx_fee", "fee-definition")
+    _refcheck(ctx, TX, "Tx.total_in", "tx_total_in", "total-in")
+    _refcheck(ctx, TX, "Tx.total_out", "tx_total_out", "total-out")
     # decimal conversions use exact decimal arithmetic
     m = ctx.p.module(CONV)
     it = ctx.interp
     mv = it.module(m.name)
     import decimal
-    ctx.check(mv.ns.get("SATOSHI_PER_COIN") == decimal.Decimal(100000000) and mv.ns.get("SATOSHI_TO_MBTC") == decimal.Decimal(100000), "conversion-constants", CONV + ":1", "SATOSHI_PER_COIN / SATOSHI_TO_MBTC are not 10^8 / 10^5")
+    ctx.check(mv.ns.get("SATOSHI_PER_COIN") == decimal.Decimal(100000000) and mv.ns.get("SATOSHI_TO_MBTC") == decimal.Decimal(100000), "conversion-constants", CONV + ":1", "SATOSHI_PER_COIN / SATOSHI_TO_MBTC are not 10^8 / 10^5 as Decimal")
     bad = []
     for n_ in ast.walk(m.tree):
         if isinstance(n_, ast.Attribute) and n_.attr in ("Context", "localcontext", "setcontext", "prec", "BasicContext", "ExtendedContext") or (isinstance(n_, ast.Name) and n_.id in ("float",)):
             bad.append(n_)
     for b in bad:
-        ctx.bad("inexact-decimal:%s" % norm(b), "%s:%d" % (CONV, b.lineno), "pycoin.convention uses `%s`: a reduced precision context / float rounds amounts of 10^15 satoshi and more; conversions must be exact over 0..21e14" % norm(b))
-    want_f = {"satoshi_to_btc": ["r = satoshi_count * COIN_PER_SATOSHI", "return r.quantize(COIN_PER_SATOSHI)"], "btc_to_satoshi": ["return int(decimal.Decimal(btc) * SATOSHI_PER_COIN)"],
-              "satoshi_to_mbtc": ["r = satoshi_count / SATOSHI_TO_MBTC", "return r.quantize(MBTC_PER_SATOSHI)"], "mbtc_to_satoshi": ["return int(decimal.Decimal(btc) * SATOSHI_TO_MBTC)"]}
-    for name, frag in want_f.items():
-        fn = ctx.func(CONV, name)
-        t_ = norm(fn.node)
-        ctx.check(all(x in t_ for x in frag), "conversion:%s" % name, ctx.where(fn), "%s is not the exact decimal conversion (%s)" % (name, frag), sample={"function": name})
+        ctx.bad("inexact-decimal:%s" % norm(b), "%s:%d" % (CONV, b.lineno), "pycoin.convention uses `%s`: a reduced precision context / float rounds amounts of 10^15 satoshi and more; conversions must be exact over 0..21*10^14" % norm(b))
+    for name in ("satoshi_to_btc", "btc_to_satoshi", "satoshi_to_mbtc", "mbtc_to_satoshi"):
+        _refcheck(ctx, CONV, name, "cv_" + name, "conversion:%s" % name, ints=lambda t: False)
 
 
 # ------------------------------------------------------------------ C13.3
 def c13_3(ctx):
-    f = ctx.func(TU, "create_tx")
-    top = [s for s in f.node.body if not (isinstance(s, ast.Expr) and isinstance(s.value, ast.Constant))]
-    texts = [norm(s) for s in top]
-    i_fix = [i for i, t in enumerate(texts) if t == "spendables = [_fix_spendable(s) for s in spendables]"]
-    i_in = [i for i, t in enumerate(texts) if t == "txs_in = [spendable.tx_in() for spendable in spendables]"]
-    i_un = [i for i, t in enumerate(texts) if t == "tx.set_unspents(spendables)"]
-    ok = len(i_fix) == 1 and len(i_in) == 1 and len(i_un) == 1 and i_fix[0] < i_in[0] < i_un[0]
-    ctx.check(ok, "inputs-and-unspents-same-list", ctx.where(f), "create_tx does not build the inputs and the recorded spent outputs from the same list in the same order")
-    if ok:
-        between = top[i_in[0] + 1:i_un[0]]
-        touched = [norm(s) for s in between for n_ in ast.walk(s) if (isinstance(n_, ast.Name) and n_.id in ("spendables", "txs_in") and isinstance(n_.ctx, ast.Store)) or
-                   (isinstance(n_, ast.Call) and isinstance(n_.func, ast.Attribute) and norm(n_.func.value) in ("spendables", "txs_in") and n_.func.attr in ("sort", "reverse", "pop", "insert", "remove", "append"))]
-        ctx.check(not touched, "no-reordering", ctx.where(f), "create_tx reorders or rebinds the input list between building the inputs and recording the spent outputs: %s" % touched[:2])
-    ctx.check("tx = Tx(version=version, txs_in=txs_in, txs_out=txs_out, lock_time=lock_time)" in texts and "distribute_from_split_pool(tx, fee)" in texts and texts.index("tx.set_unspents(spendables)") < texts.index("distribute_from_split_pool(tx, fee)"),
-              "split-after-unspents", ctx.where(f), "create_tx does not distribute the split pool after the spent outputs are recorded")
-    s = ctx.func(SP, "Spendable.tx_in")
-    ctx.check("return self.TxIn(self.tx_hash, self.tx_out_index, script, sequence)" in norm(s.node), "spendable-outpoint", ctx.where(s), "Spendable.tx_in does not reference (tx_hash, tx_out_index)")
-    su = ctx.func("pycoin/coins/Tx.py", "Tx.set_unspents")
-    ctx.check("self.unspents = unspents" in norm(su.node), "unspents-stored", ctx.where(su), "set_unspents does not store the list as given")
+    _refcheck(ctx, TU, "create_tx", "tu_create_tx", "inputs-and-unspents-same-list")
+    _refcheck(ctx, SP, "Spendable.tx_in", "sp_tx_in", "spendable-outpoint")
+    _refcheck(ctx, "pycoin/coins/Tx.py", "Tx.set_unspents", "btx_set_unspents", "unspents-stored")
 
 
 # ------------------------------------------------------------------ C13.4
 def c13_4(ctx):
     f = ctx.func(TX, "Tx.validate_unspents")
-    loops = [n for n in body_nodes(f.node) if isinstance(n, ast.For)]
-    cmp_loops = [lp for lp in loops if any(isinstance(x, ast.Raise) and "BadSpendableError" in norm(x) for x in ast.walk(lp))]
-    if len(cmp_loops) != 1:
-        ctx.bad("comparison-loop", ctx.where(f), "validate_unspents: expected one loop comparing every input with its source transaction, found %d" % len(cmp_loops))
-        return
-    lp = cmp_loops[0]
-    ctx.check(norm(lp.iter) == "enumerate(self.txs_in)" and norm(lp.target) == "(idx, tx_in)", "every-input", ctx.where(f, lp), "the comparison loop iterates %s, expected enumerate(self.txs_in)" % norm(lp.iter))
-    for n in body_nodes(lp):
-        if isinstance(n, (ast.Continue, ast.Break)):
-            t = ru.enclosing_test(lp, n)
-            ok = t is not None and norm(t) in ("tx_in.previous_hash == ZERO32", "tx_in.is_coinbase()")
-            ctx.check(ok and isinstance(n, ast.Continue), "skip-only-coinbase", ctx.where(f, n),
-                      "validate_unspents skips an input under `%s`; only the null outpoint may be skipped, every other input's amount and script must be compared" % (norm(t) if t is not None else "<unconditional>"),
-                      what="skip:%s" % (norm(t) if t is not None else ""), sample={"skip_condition": norm(t) if t is not None else None})
-    w = GuardWalker(ru.opaque)
-    ex = w.run(lp.body)
-    rs = [e for e in ex if ru.is_raise_of("BadSpendableError")(e)]
-    atoms = [o for e in rs for o in gi.f_opaques(e.cond)]
-    ctx.check("tx_out1.coin_value != tx_out2.coin_value" in atoms, "amount-mismatch-raises", ctx.where(f, lp), "no BadSpendableError for a differing amount")
-    ctx.check("tx_out1.script != tx_out2.script" in atoms, "script-mismatch-raises", ctx.where(f, lp), "no BadSpendableError for a differing script")
-    d = {}
-    for st in lp.body:
-        if isinstance(st, ast.Assign) and isinstance(st.targets[0], ast.Name):
-            d[st.targets[0].id] = norm(st.value)
-    ctx.check(d.get("tx_out1") == "txs_out[tx_in.previous_index]" and d.get("txs_out") == "tx_lookup[tx_in.previous_hash].txs_out" and d.get("tx_out2") == "self.unspents[idx]", "compared-objects", ctx.where(f, lp),
-              "the comparison is not between source_tx.txs_out[previous_index] and self.unspents[idx]: %s" % d)
-    # normal exit only after the loop
-    rets = df.returns_of(f.node)
-    ctx.check(len(rets) == 1 and rets[0] in f.node.body and f.node.body.index(rets[0]) > f.node.body.index(lp), "return-after-loop", ctx.where(f), "validate_unspents can return before every input was compared")
-    # authenticity of the source transactions
-    t = norm(f.node)
-    ctx.check("if the_tx.hash() != h:" in t and "if the_tx is None:" in t, "source-authenticated", ctx.where(f), "validate_unspents does not check that each source transaction exists and hashes to the referenced id")
-    src = [l2 for l2 in loops if l2 is not lp and "tx_db.get(h)" in norm(l2)]
-    ok = len(src) == 1 and norm(src[0].iter) == "tx_hashes" and "tx_hashes = set((tx_in.previous_hash for tx_in in self.txs_in))" in t
-    ctx.check(ok, "all-sources-loaded", ctx.where(f), "validate_unspents does not load the source transaction of every input")
+    _refcheck(ctx, TX, "Tx.validate_unspents", "tx_validate_unspents", "comparison")
+    # only the null outpoint may be skipped
+    w = sym.walk(ctx, f, int_names=INTS)
+    skips = [e for e in w.effects if e.kind == "continue" and e.loops and norm(e.loops[-1].iter or ast.Constant(0)) in ("enumerate(self.txs_in)", "self.txs_in", "zip(self.txs_in, self.unspents)", "range(len(self.txs_in))")]
+    for e in skips:
+        lp_reach = e.loops[-1].reach
+        ops = [o for o in (gi.f_opaques(e.reach) if e.reach not in (True, False) else []) if o not in (gi.f_opaques(lp_reach) if lp_reach not in (True, False) else [])]
+        ok = bool(ops) and all(("previous_hash" in o and repr(b"\0" * 32) in o) or o.endswith(".is_coinbase())") for o in ops)
+        ctx.check(ok, "skip-only-coinbase", ctx.where(f, e.node), "validate_unspents skips an input under `%s`; only the null outpoint may be skipped, every other input's amount and script must be compared" % (ops or "<unconditional>"),
+                  what="skip:%s" % ops, sample={"skip_condition": ops})
+    ctx.ok("skip-conditions-analysed")
 
 
 OBLIGATIONS = [
-    Ob("C13.1", "insufficiency guards as intervals, dominating the writes of split amounts", c13_1, floor=4, engines="GI,CFG", breaks_if="1 .. zero_count-1 satoshi left for several unspecified outputs"),
-    Ob("C13.2", "fee / total / split definitions; divmod identity; exact decimal conversions", c13_2, floor=12, engines="DF,LIN,CE", breaks_if="amounts >= 10^15 satoshi in the decimal conversions"),
-    Ob("C13.3", "inputs and recorded spent outputs come from one list, unreordered", c13_3, floor=4, engines="DF"),
-    Ob("C13.4", "validate_unspents compares amount and script of every non-coinbase input", c13_4, floor=7, engines="CFG,DF", breaks_if="two inputs spending the same source transaction, discrepancy on the later one"),
+    Ob("C13.1", "insufficiency guards as intervals, dominating the writes of split amounts", c13_1, floor=2, engines="SYM", breaks_if="1 .. zero_count-1 satoshi left for several unspecified outputs"),
+    Ob("C13.2", "fee / total / split definitions; divmod identity; exact decimal conversions", c13_2, floor=9, engines="SYM,CE", breaks_if="amounts >= 10^15 satoshi in the decimal conversions"),
+    Ob("C13.3", "inputs and recorded spent outputs come from one list, unreordered", c13_3, floor=3, engines="SYM"),
+    Ob("C13.4", "validate_unspents compares amount and script of every non-coinbase input", c13_4, floor=2, engines="SYM", breaks_if="two inputs spending the same source transaction, discrepancy on the later one"),
 ]
